@@ -676,7 +676,7 @@ struct QueH
         case Q_INSERT: return s + "(idx=" + idx_str(o.a) + ",key=" + std::to_string(o.b) + ")";
         case Q_REMOVE: return s + "(idx=" + idx_str(o.a) + ")";
         case Q_SWAP_ELEM: return s + "(elem " + std::to_string(o.a) + ", elem " + std::to_string(o.b) + ")";
-        case Q_SWAP_QUE: return s + "(other queue of " + std::to_string(o.a) + " elements)";
+        case Q_SWAP_QUE: return s + "(other queue of " + std::to_string(o.a) + " elements" + (o.b ? ", element size " + std::to_string(o.b) : "") + (o.c ? ", " + std::to_string(o.c) + " recycled node(s)" : "") + ")";
         case Q_DROP: return s + (o.a ? "(dtor)" : "()");
         case Q_SETZ: return s + "(" + std::to_string(o.a) + ")";
         }
@@ -689,7 +689,7 @@ struct QueH
         {
         case Q_INSERT: case Q_REMOVE: return "idx:" + cls(o.a);
         case Q_SWAP_ELEM: return o.a == o.b ? "same" : (o.a - o.b == 1 || o.b - o.a == 1) ? "adjacent" : "distinct";
-        case Q_SWAP_QUE: return o.a ? "other-nonempty" : "other-empty";
+        case Q_SWAP_QUE: return std::string(o.a ? "other-nonempty" : "other-empty") + (o.b ? "-resized" : "") + (o.c ? "-pooled" : "");
         }
         return "-";
     }
@@ -887,17 +887,24 @@ struct QueH
         }
         case Q_SWAP_QUE:
         {
-            L.aux = a_que_new(siz);
+            // o.a elements in the other queue, o.b its element size (0: the same), o.c recycled nodes in its pool
+            size_t osiz = o.b ? (size_t)o.b : siz, ocur0 = q->cur_;
+            L.aux = a_que_new(osiz);
+            for (long i = 0; i < o.c; ++i) { a_que_push_back(L.aux); }
+            for (long i = 0; i < o.c; ++i) { a_que_pull_back(L.aux); }
             for (long i = 0; i < o.a; ++i)
             {
                 void *p = a_que_push_back(L.aux);
                 unsigned char b0 = (unsigned char)(((nkeys - 1) << 4) | (14 + i));
-                fill_elem(p, b0, siz);
+                fill_elem(p, b0, osiz);
                 L.am.push_back(QElem{b0, p});
             }
+            size_t ocur = L.aux->cur_;
             a_que_swap(L.q, L.aux);
-            outcome = o.a ? "other-nonempty" : "other-empty";
+            outcome = std::string(o.a ? "other-nonempty" : "other-empty") + (o.b ? "-resized" : "") + (o.c ? "-pooled" : "");
             std::swap(m, L.am);
+            if (L.q->siz_ != osiz || L.aux->siz_ != siz) { ck.fail("swap-size", "the element sizes did not change sides with the contents (" + std::to_string(L.q->siz_) + "/" + std::to_string(L.aux->siz_) + ", expected " + std::to_string(osiz) + "/" + std::to_string(siz) + ")"); return; }
+            if (L.q->cur_ != ocur || L.aux->cur_ != ocur0) { ck.fail("swap-pool", "the pools of recycled nodes did not change sides with the contents"); return; }
             Ck ck2;
             if (!check_que(L.aux, L.am, ck2)) { ck.fail(ck2.cls.c_str(), "the other queue after the swap: " + ck2.err); return; }
             break;
@@ -968,7 +975,17 @@ struct QueH
         add(Q_REMOVE, SMAX);
         add(Q_SORT_FORE); add(Q_SORT_BACK);
         for (size_t i = 0; i < num; ++i) { for (size_t j = i; j < num; ++j) { add(Q_SWAP_ELEM, (long)i, (long)j); if (j != i) { add(Q_SWAP_ELEM, (long)j, (long)i); } } } // every ordered pair, adjacent elements included (the statement restricts only the list-level swap)
-        if (num + cur + 2 <= (size_t)N + 2) { add(Q_SWAP_QUE, 0); add(Q_SWAP_QUE, 2); }
+        if (num + cur + 2 <= (size_t)N + 2)
+        {
+            add(Q_SWAP_QUE, 0); add(Q_SWAP_QUE, 2);
+            if (cur + 1 <= 2) { add(Q_SWAP_QUE, 0, 0, 1); }
+            if (siz2)
+            {
+                long other = (long)(siz == siz0 ? siz2 : siz0);
+                add(Q_SWAP_QUE, 0, other, 0); add(Q_SWAP_QUE, 2, other, 0);
+                if (cur + 1 <= 2) { add(Q_SWAP_QUE, 0, other, 1); }
+            }
+        }
         add(Q_DROP, 0); add(Q_DROP, 1);
         add(Q_SETZ, (long)siz);
         if (siz2) { add(Q_SETZ, (long)(siz == siz0 ? siz2 : siz0)); }
@@ -1001,12 +1018,123 @@ struct QueH
                 check_access(L, ck);
                 if (ck.ok() && encode(L) != key) { ck.fail("accessor", "accessors changed the queue"); }
                 if (ck.ok()) { destroy(L, ck); }
+                if (ck.ok() && !faults) { check_typed(key, ck); }
                 out.leave();
                 if (!ck.ok()) { out.viol(o, std::string("que|access|") + ck.cls, "accessors on " + key_str(key) + ": " + ck.err); }
                 else { out.succ(o, key, "access", "all-indices"); }
             }
         }
         if (faults) { expand_faults(key, out); }
+    }
+
+
+    // ---- the typed macros of a/que.h: what the function of the same name gives, every argument expression evaluated exactly once
+    static std::vector<unsigned char> ring_bytes(a_que *q)
+    {
+        std::vector<unsigned char> v;
+        size_t guard = 0;
+        for (a_list *it = q->head_.next; it != &q->head_ && guard < 64; it = it->next, ++guard) { v.push_back(*(unsigned char *)(it + 1)); }
+        return v;
+    }
+    static long ring_rank(a_que *q, const void *p)
+    {
+        long r = 0;
+        size_t guard = 0;
+        for (a_list *it = q->head_.next; it != &q->head_ && guard < 64; it = it->next, ++guard, ++r) { if ((const void *)(it + 1) == p) { return r; } }
+        return p ? -2 : -1;
+    }
+    void check_typed(const std::string &key, Ck &ck)
+    {
+        typedef unsigned char UC;
+#define EV(x) (++ev, (x))
+        int ev = 0;
+        size_t num0;
+        {
+            QueLive L;
+            make(L, key);
+            a_que *q = L.q;
+            num0 = q->num_;
+#define TYPED_RO(n, name, mexpr, fexpr) \
+    do { ev = 0; const void *pm_ = (const void *)(mexpr); const void *pf_ = (const void *)(fexpr); \
+         if (ck.ok() && (pm_ != pf_ || ev != (n))) { ck.fail("typed-macro", std::string(name) + (ev != (n) ? " evaluates an argument " + std::to_string(ev) + " times in total instead of " + std::to_string(n) : " does not give what the function of the same name gives")); } } while (0)
+            TYPED_RO(1, "FORE", A_QUE_FORE(UC, EV(q)), a_que_fore(q));
+            TYPED_RO(1, "BACK", A_QUE_BACK(UC, EV(q)), a_que_back(q));
+            if (num0) { TYPED_RO(1, "FORE_", A_QUE_FORE_(UC, EV(q)), a_que_fore_(q)); TYPED_RO(1, "BACK_", A_QUE_BACK_(UC, EV(q)), a_que_back_(q)); }
+            for (long i = -(long)num0 - 1; i <= (long)num0 && ck.ok(); ++i)
+            {
+                long cur = i;
+                TYPED_RO(2, "AT", A_QUE_AT(UC, EV(q), EV((a_diff)cur++)), a_que_at(q, (a_diff)i));
+                if (ck.ok() && cur != i + 1) { ck.fail("typed-macro", "AT advanced the index expression more than once"); }
+            }
+#undef TYPED_RO
+            if (ck.ok() && encode(L) != key) { ck.fail("typed-macro", "a read-only typed macro changed the queue"); }
+            Ck dk;
+            destroy(L, dk);
+        }
+        // mutating: 0 push_fore 1 push_back 2 insert(idx) 3 push_sort 4 pull_fore 5 pull_back 6 remove(idx)
+        static const char *MN[7] = {"PUSH_FORE", "PUSH_BACK", "INSERT", "PUSH_SORT", "PULL_FORE", "PULL_BACK", "REMOVE"};
+        for (int mth = 0; mth <= 6 && ck.ok(); ++mth)
+        {
+            if (mth <= 3 && num0 >= (size_t)N) { continue; }
+            for (size_t idx = 0; idx <= (mth == 2 || mth == 6 ? num0 + 1 : 0) && ck.ok(); ++idx)
+            {
+                std::vector<unsigned char> seq[2];
+                long rank[2] = {0, 0};
+                size_t cnt[2] = {0, 0};
+                unsigned char probe[32];
+                for (int side = 0; side < 2; ++side)
+                {
+                    QueLive L;
+                    make(L, key);
+                    a_que *q = L.q;
+                    fill_elem(probe, (unsigned char)(1 << 4 | 9), q->siz_);
+                    void *p = nullptr;
+                    size_t cur = idx;
+                    ev = 0;
+                    std::vector<unsigned char> pre = ring_bytes(q);
+                    long pre_rank = -1;
+                    if (side == 0)
+                    {
+                        switch (mth)
+                        {
+                        case 0: p = a_que_push_fore(q); break;
+                        case 1: p = a_que_push_back(q); break;
+                        case 2: p = a_que_insert(q, idx); break;
+                        case 3: p = a_que_push_sort(q, probe, cmp_key); break;
+                        case 4: pre_rank = ring_rank(q, a_que_fore(q)); p = a_que_pull_fore(q); break;
+                        case 5: pre_rank = ring_rank(q, a_que_back(q)); p = a_que_pull_back(q); break;
+                        case 6: p = a_que_remove(q, idx); break;
+                        }
+                    }
+                    else
+                    {
+                        int want_ev = 1;
+                        switch (mth)
+                        {
+                        case 0: p = A_QUE_PUSH_FORE(UC, EV(q)); break;
+                        case 1: p = A_QUE_PUSH_BACK(UC, EV(q)); break;
+                        case 2: p = A_QUE_INSERT(UC, EV(q), EV(cur++)); want_ev = 2; break;
+                        case 3: p = A_QUE_PUSH_SORT(UC, EV(q), EV(probe), EV(cmp_key)); want_ev = 3; break;
+                        case 4: p = A_QUE_PULL_FORE(UC, EV(q)); break;
+                        case 5: p = A_QUE_PULL_BACK(UC, EV(q)); break;
+                        case 6: p = A_QUE_REMOVE(UC, EV(q), EV(cur++)); want_ev = 2; break;
+                        }
+                        if (ev != want_ev) { ck.fail("typed-macro", std::string(MN[mth]) + " evaluates its arguments " + std::to_string(ev) + " times in total instead of " + std::to_string(want_ev)); }
+                    }
+                    (void)pre_rank;
+                    if (p && mth <= 3) { fill_elem(p, (unsigned char)(1 << 4 | 9), q->siz_); }
+                    // a removed element is identified by its first byte (unique among the enqueued ones), an added one by its rank
+                    rank[side] = mth <= 3 ? ring_rank(q, p) : (p ? (long)*(unsigned char *)p : -1);
+                    seq[side] = ring_bytes(q);
+                    cnt[side] = q->num_;
+                    (void)pre;
+                    Ck dk;
+                    destroy(L, dk);
+                }
+                if (ck.ok() && (rank[0] != rank[1] || seq[0] != seq[1] || cnt[0] != cnt[1])) { ck.fail("typed-macro", std::string(MN[mth]) + " does not do what the function of the same name does"); }
+            }
+        }
+#undef EV
     }
 
     // ---- C07 (queue part): every allocation request of every operation fails, singly and from-there-on
